@@ -339,6 +339,11 @@ def make_backend_class():
                 if t.status == Status.in_progress:
                     plan = self.bad.get(tid)
                     if plan is not None and len(t.metrics) >= plan[0]:
+                        if len(plan) > 2 and plan[2] and len(t.metrics) < self.max_epochs:
+                            # the run's last report becomes visible in the same poll as its bad status
+                            self.clock += 1
+                            t.metrics.append({"m": self.rng.randint(1, 1000) / 1024.0, "epoch": len(t.metrics) + 1,
+                                              ST_WORKER_TIMESTAMP: self.clock})
                         t.status = Status.failed if plan[1] == "failed" else Status.stopped
                         del self.bad[tid]
                     else:
@@ -411,11 +416,20 @@ def run_tuner(spec):
         tsd, res = orig_fetch(trial_ids)
         if cur["statuses"] is not None:
             polls.append(dict(cur))
+        failed_seen.update(int(t) for t, (_, s) in tsd.items() if STATUS_NAME[s] == "failed")
         cur.update(statuses=[(int(t), STATUS_NAME[s]) for t, (_, s) in tsd.items()], results=[int(t) for t, _ in res], calls=[],
                    decisions={}, ss=list(stopped_by_sched))
         return tsd, res
 
     backend.fetch_status_results = fetch
+    resumed, errored, failed_seen = [], [], set()
+    orig_resume = backend.resume_trial
+
+    def resume(trial_id, new_config=None):
+        resumed.append((int(trial_id), int(trial_id) in errored or int(trial_id) in failed_seen))
+        return orig_resume(trial_id, new_config)
+
+    backend.resume_trial = resume
     o_res, o_rem, o_com, o_err = sch.on_trial_result, sch.on_trial_remove, sch.on_trial_complete, sch.on_trial_error
 
     def w_res(trial, result):
@@ -436,6 +450,7 @@ def run_tuner(spec):
 
     def w_err(trial):
         cur["calls"].append(("CError", int(trial.trial_id)))
+        errored.append(int(trial.trial_id))
         return o_err(trial)
 
     sch.on_trial_result, sch.on_trial_remove, sch.on_trial_complete, sch.on_trial_error = w_res, w_rem, w_com, w_err
@@ -453,7 +468,7 @@ def run_tuner(spec):
         outcome = (type(e).__name__, str(e)[:200])
     if cur["statuses"] is not None:
         polls.append(dict(cur))
-    return dict(outcome=outcome, polls=polls, planned=bad, status=tuner.tuning_status)
+    return dict(outcome=outcome, polls=polls, planned=bad, status=tuner.tuning_status, resumed=resumed)
 
 
 def coq_poll(p):
@@ -569,35 +584,60 @@ def _run(ctx, replay):
             nbad = rng.randint(0, 4)
             bad = {}
             for t in rng.sample(range(ntr), min(nbad, ntr)):
-                bad[str(t)] = [rng.choice([0, 0, 1, 2, 4]), rng.choice(["failed", "failed", "stopped"])]
+                bad[str(t)] = [rng.choice([0, 0, 1, 2, 4]), rng.choice(["failed", "failed", "stopped"]), rng.random() < 0.4]
             specs.append(dict(kind=list(kind), seed=rng.randrange(10 ** 6), ntrials=ntr, workers=rng.randint(1, 3),
                               max_failures=rng.randint(0, 3), bad=bad))
+        # directed: a trial that fails right after the report that is answered with PAUSE (both seen in one poll)
+        specs.append(dict(kind=["hb", "promotion", "random"], seed=2, ntrials=12, workers=3, max_failures=3,
+                          bad={"0": [0, "failed", True]}))
     polls_coq, polls_meta, ends_coq, ends_meta = [], [], [], []
     for spec in specs:
         res = run_tuner(spec)
         case = dict(part="B", spec=spec)
         ctx.traces_validated += 1
-        errs, bad_runs, failed_ids = {}, {}, []
-        for p in res["polls"]:
+        errs_total, bad_total, failed_ids = 0, 0, []
+        for pi, p in enumerate(res["polls"]):
+            per = {}
             for c, t in p["calls"]:
                 if c == "CError":
-                    errs[t] = errs.get(t, 0) + 1
-            ss_after = set(p["ss"]) | {t for t, ds in p["decisions"].items() if "STOP" in ds}
+                    per[t] = per.get(t, 0) + 1
+            stopped_now = {t for t, ds in p["decisions"].items() if "STOP" in ds}
+            decided_now = {t for t, ds in p["decisions"].items() if ds and ds[-1] in ("STOP", "PAUSE")}
             for t, s in p["statuses"]:
-                if s == "failed" or (s == "stopped" and t not in ss_after):
-                    bad_runs[t] = bad_runs.get(t, 0) + 1
+                bad_end = s == "failed" or (s == "stopped" and t not in set(p["ss"]) | stopped_now)
+                n = per.pop(t, 0)
                 if s == "failed":
                     failed_ids.append(t)
+                if bad_end:
+                    bad_total += 1
+                # exactly one on_trial_error per badly ended run; if the scheduler itself ended the run in the same
+                # poll (STOP/PAUSE for one of the new results) it has been told by on_trial_remove: 0 or 1 accepted
+                ok = (n == 1) if (bad_end and t not in decided_now) else (n <= 1 if bad_end else n == 0)
+                errs_total += n
+                if not ok:
+                    ctx.violation("property", "Tuner poll #%d: trial %d with status %s got %d on_trial_error calls "
+                                  "(decisions in this poll: %r)" % (pi, t, s, n, p["decisions"].get(t)), case=case,
+                                  signature=dict(part="tuner", check="not_notified_exactly_once", status=s))
+            for t, n in per.items():
+                ctx.violation("property", "Tuner poll #%d: on_trial_error for trial %d that was not polled" % (pi, t), case=case,
+                              signature=dict(part="tuner", check="on_trial_error_for_unpolled_trial"))
             polls_coq.append(coq_poll(p))
             polls_meta.append(dict(part="B", spec=spec, poll=dict(statuses=p["statuses"], results=p["results"],
                                                                    calls=p["calls"], ss=p["ss"])))
+        bad_runs = bad_total
         ctx.count(case, nontrivial=bool(bad_runs))
         ctx.h("B_kind", "/".join(spec["kind"]))
-        ctx.h("B_bad_runs", len(bad_runs))
+        ctx.h("B_bad_runs", bad_runs)
         ctx.h("B_max_failures", spec["max_failures"])
-        if errs != bad_runs:
-            ctx.violation("property", "Tuner run: on_trial_error calls per trial %r but badly ended runs %r (spec %r)" % (
-                errs, bad_runs, spec), case=case, signature=dict(part="tuner", check="not_notified_exactly_once"))
+        ctx.h("B_on_trial_error_calls", errs_total)
+        for (t, was_errored) in res["resumed"]:
+            if was_errored:
+                ctx.h("B_errored_trial_resumed", "/".join(spec["kind"]))
+                ctx.violation("property", "Tuner run: trial %d, whose run ended with status failed / on_trial_error (in the poll "
+                              "that also delivered its report answered with PAUSE), is resumed later (spec %r)" % (t, spec), case=case,
+                              signature=dict(scheduler="/".join(spec["kind"]), check="failed_trial_resumed",
+                                             failed_how="with_pause_report", part="tuner"))
+                break
         nfailed = len(set(failed_ids))
         out = res["outcome"]
         ctx.h("B_outcome", "error" if out else "ok")
